@@ -473,6 +473,9 @@ func c16Observe(z *apd.BigInt, m *big.Int) (msg string) {
 		if a, b := o.z.Cmp(z), o.m.Cmp(m); a != b {
 			return fmt.Sprintf("(%s).Cmp(z) %d, want %d", o.m, a, b)
 		}
+		if a, b := o.z.CmpAbs(z), o.m.CmpAbs(m); a != b {
+			return fmt.Sprintf("(%s).CmpAbs(z) %d, want %d", o.m, a, b)
+		}
 	}
 	if a, b := z.String(), m.String(); a != b {
 		return fmt.Sprintf("String %q, want %q", a, b)
@@ -665,7 +668,7 @@ func c16Run(e *core.Env) {
 	if err := c16LayoutOK(); err != nil {
 		panic(err)
 	}
-	for _, v := range []*big.Int{big.NewInt(1), big.NewInt(-1), pow2(64), new(big.Int).Neg(pow2(64)), pow2(130)} {
+	for _, v := range []*big.Int{big.NewInt(0), big.NewInt(1), big.NewInt(-1), big.NewInt(10), pow2(63), pow2(64), new(big.Int).Neg(pow2(64)), pow2(130)} {
 		c16Probe = append(c16Probe, struct {
 			z *apd.BigInt
 			m *big.Int
